@@ -13,9 +13,15 @@ CHECKS = {
 NOT_BUILT_REASON = "check not built yet in this tree (planned in DESIGN.md section 4); nothing is claimed for it"
 
 def load_checks():
-    path = os.path.join(ROOT, "bin", "manifest_checks.json")
-    with open(path) as f:
-        return json.load(f)
+    """One JSON file per property in bin/manifest.d/<ID>.json with keys
+    technique, level_text, level_note (and optionally thorough_cmd, disabled, reason)."""
+    out = {}
+    d = os.path.join(ROOT, "bin", "manifest.d")
+    for fn in sorted(os.listdir(d)):
+        if fn.endswith(".json"):
+            with open(os.path.join(d, fn)) as f:
+                out[fn[:-5]] = json.load(f)
+    return out
 
 def main():
     props = [json.loads(l) for l in open(os.path.join(ROOT, "properties.jsonl"))]
